@@ -49,7 +49,7 @@ def resolve_contract():
         arg = {"none": None, "reference": ref_obj("arg"), "inline": body_obj("arg")}[arg_kind]
 
         def inv(I2, loc, _):
-            b, rs = loc["body"], loc["references_seen"]
+            b, rs = loc["body"], seen               # `seen` is the list the function creates, whatever it is called
             parts = [z3.IsSubset(W.F, rs.members)]
             if b is None:
                 parts.append(rs.nonempty)
@@ -60,13 +60,10 @@ def resolve_contract():
                 return None
             return ref_obj("loop") if I2.branch_free() else body_obj("loop")
 
-        def havoc_seen(I2, cur):
-            cur.members = I2.fresh("seen", z3.SetSort(S))
-            cur.last = I2.fresh("last", S)
-            cur._nonempty = I2.fresh("nonempty", z3.BoolSort())
+        def havoc_ghost(I2):
             W.F = I2.fresh("followed", z3.SetSort(S))
-            return cur
-        I.loop_specs[(Q, 0)] = LoopSpec(inv, {"body": havoc_body, "references_seen": havoc_seen})
+            return None
+        I.loop_specs[(Q, 0)] = LoopSpec(inv, {"body": havoc_body, "__ghost__": havoc_ghost})
         return SFunc("pyfunc", B._resolve_reference), [arg, table], {}, {"arg": arg}
 
     def kind(ctx):
